@@ -15,7 +15,8 @@
      "ie" error the body sets on an item, "fe" Exception raised by the body, "fb" BaseException subclass raised by
      the body, "ce" error passed to cancel(), "bce" BatchCancelledError (cancel() without argument),
      "notset" = AssertionError saying the value was not set.
-   bodies: all = set every item; some = set odd items only; none = set nothing; ierr = set_error("ie") on odd
+   bodies: all = set every item; some = set odd items only; evens = set even items only (a hole before a set item);
+     lastraise = set the last item, then raise "fe"; none = set nothing; ierr = set_error("ie") on odd
      items, values on even ones; raise / braise = set item 1, then raise "fe" / "fb"; new = create a new item
      (through the active-batch pointer) and then set every own item.
      f<s>-<how> = a body that finishes its own batch half-way: it sets item 1 first (s = 1) or nothing (s = 0), then
@@ -34,7 +35,7 @@ Depth == IF "DEPTH" \in DOMAIN IOEnv THEN atoi(IOEnv.DEPTH) ELSE 4
 MaxI  == IF "MAXI" \in DOMAIN IOEnv THEN atoi(IOEnv.MAXI) ELSE 2
 MaxB  == 2
 MaxQuiet == IF "MAXQUIET" \in DOMAIN IOEnv THEN atoi(IOEnv.MAXQUIET) ELSE 2   \* longest run of operations that change nothing
-PlainBodies == {"all", "some", "none", "ierr", "raise", "braise", "new"}
+PlainBodies == {"all", "some", "evens", "none", "ierr", "raise", "braise", "lastraise", "new"}
 FinBodies == {"f0-cancel_e", "f1-cancel_e", "f0-cancel", "f1-cancel", "f0-seterr", "f1-seterr", "f0-setval", "f1-setval"}
 Bodies == PlainBodies \cup FinBodies
 FinS(bd) == IF bd \in {"f1-cancel_e", "f1-cancel", "f1-seterr", "f1-setval"} THEN 1 ELSE 0      \* sets item 1 first
@@ -66,14 +67,16 @@ BEntry(b, c)    == "b" \o ToString(b) \o "=" \o c
 NEntry(b, i)    == "n" \o ToString(b) \o "." \o ToString(i)
 
 (* what the flush body does to item i of batch b, and how it ends *)
-BodySets(bd, b, i) ==
+BodySets(bd, b, i, n) ==
   CASE bd \in {"all", "new"} -> Val(b, i)
     [] bd = "some" -> IF i % 2 = 1 THEN Val(b, i) ELSE Unset
+    [] bd = "evens" -> IF i % 2 = 0 THEN Val(b, i) ELSE Unset                     \* leaves a hole BEFORE a set item
     [] bd = "none" -> Unset
     [] bd = "ierr" -> IF i % 2 = 1 THEN Err("ie") ELSE Val(b, i)
     [] bd \in {"raise", "braise"} -> IF i = 1 THEN Val(b, i) ELSE Unset
+    [] bd = "lastraise" -> IF i = n THEN Val(b, i) ELSE Unset                     \* sets the LAST item, then raises
     [] bd \in FinBodies -> IF i = 1 /\ FinS(bd) = 1 THEN Val(b, i) ELSE Unset
-BodyEnds(bd) == CASE bd = "raise" -> "fe" [] bd = "braise" -> "fb" [] OTHER -> "ok"
+BodyEnds(bd) == CASE bd \in {"raise", "lastraise"} -> "fe" [] bd = "braise" -> "fb" [] OTHER -> "ok"
 
 FinPre == IF "FINPRE" \in DOMAIN IOEnv THEN IOEnv.FINPRE ELSE "*"  \* "2": self-finishing bodies only with 2 requests already made
 Only == IF "ONLY" \in DOMAIN IOEnv THEN IOEnv.ONLY ELSE "*"      \* "<kind>/<body>" restricts a run to one configuration
@@ -138,7 +141,7 @@ FlushBody ==
   /\ cur # NoCur /\ cur.stage = "body"
   /\ LET b == cur.b
          n == Len(items[b])
-         mine == [j \in 1..n |-> BodySets(body, b, j)]
+         mine == [j \in 1..n |-> BodySets(body, b, j, n)]
          setnow == {j \in 1..n : mine[j] # Unset}
          ann == [q \in 1..Cardinality(setnow) |->
                    [k |-> "item", b |-> b, i |-> CHOOSE j \in setnow : Cardinality({x \in setnow : x < j}) = q - 1]]
@@ -269,7 +272,7 @@ AnnouncedOnce ==
 Precedence ==
   \A b \in Batches : \A i \in 1..Len(items[b]) :
      Finished(b) =>
-          items[b][i] = IF runs[b] = 1 /\ BodySets(body, b, i) # Unset THEN BodySets(body, b, i)
+          items[b][i] = IF runs[b] = 1 /\ BodySets(body, b, i, Len(items[b])) # Unset THEN BodySets(body, b, i, Len(items[b]))
                         ELSE IF out[b] # "ok" THEN Err(out[b]) ELSE Err("notset")
 (* the batch stops being the active one before its body runs; items made by the body join a fresh pending batch *)
 ActiveMovedBeforeBody == cur # NoCur => /\ active # cur.b /\ st[active] = "pending"
